@@ -157,6 +157,7 @@ def _fault_worker(args):
 
     holder = {"in_sprout": False, "left": first, "faults": 0}
     found = []
+    census = []  # active demes per level after every step (read by the C08 check)
     try:
         with run_limit():
             o = runs.build(spec, None, plain="callable")
@@ -189,11 +190,12 @@ def _fault_worker(args):
                 bad = structure_of(tree, len(spec["levels"]))
                 if bad and not found:
                     found.append(f"after step {steps} ({holder['faults']} injected fault(s) so far): {bad}")
+                census.append([sum(1 for d in lv if d.is_active) for lv in tree.levels])
     except RunTimeout as e:
         return {"status": "env", "detail": str(e)}
     except Exception as e:  # noqa: BLE001 (what a run does after a fault, apart from keeping its structure, is not claimed)
         return {"status": "env" if (is_env_crash(e) or holder["faults"]) else "crash", "detail": f"{type(e).__name__}: {e}", "found": found, "faults": holder["faults"]}
-    return {"status": "ok", "found": found, "faults": holder["faults"], "demes": sum(len(lv) for lv in tree.levels)}
+    return {"status": "ok", "found": found, "faults": holder["faults"], "demes": sum(len(lv) for lv in tree.levels), "census": census}
 
 
 def fault_injection(ctx, n):
